@@ -56,7 +56,7 @@ MulV(x, y) ==
        IF IntMulOK(x.v) /\ IntMulOK(y.v) THEN I(x.v * y.v) ELSE Unspec
   ELSE IF IsNum(x) /\ IsNum(y) THEN
        IF ~(MulOK(x) /\ MulOK(y)) THEN Unspec
-       ELSE IF Num(x) * Num(y) = 0 /\ (Num(x) < 0 \/ Num(y) < 0) THEN Unspec   \* negative zero
+       ELSE IF Num(x) * Num(y) = 0 THEN F(0, 0)                              \* -0.0 and 0.0 are one value
        ELSE F(Num(x) * Num(y), Sh(x) + Sh(y))
   ELSE Unspec
 
@@ -64,7 +64,7 @@ DivV(x, y) ==
   IF ~(IsNum(x) /\ IsNum(y)) THEN Unspec
   ELSE IF ~(MulOK(x) /\ MulOK(y)) THEN Unspec
   ELSE IF Num(y) = 0 THEN Unspec                       \* division by zero: no claim
-  ELSE IF Num(x) = 0 THEN (IF Num(y) < 0 THEN Unspec ELSE F(0, 0))
+  ELSE IF Num(x) = 0 THEN F(0, 0)
   ELSE LET a == Num(x) b == Num(y)
            j == Twos(Abs(b)) bo == OddPart(Abs(b))
            e == Sh(y) - Sh(x) - j
@@ -90,7 +90,9 @@ EqV(x, y, neg) ==
 
 NegV(x) ==
   CASE x.t = "int" -> IF IntAddOK(x.v) THEN I(-x.v) ELSE Unspec
-    [] x.t = "float" -> IF x.num = 0 THEN Unspec ELSE F(-x.num, x.sh)
+    \* the zero float has one text, "0", whatever its IEEE sign (number-to-text of
+    \* the JavaScript definition the float format follows); it equals 0 and is falsy
+    [] x.t = "float" -> F(-x.num, x.sh)
     [] x.t = "bigint" -> IF SubSeq(x.v, 1, 1) = "-" THEN Big(SubSeq(x.v, 2, Len(x.v))) ELSE Big("-" \o x.v)
     [] OTHER -> Unspec
 
